@@ -3496,6 +3496,18 @@ static void jdf_generate_internal_init(const jdf_t *jdf, const jdf_function_entr
             (0 == (f->user_defines & JDF_HAS_USER_TRIGGERED_TERMDET));
     need_to_iterate = need_min_max || need_to_count_tasks;
 
+    if( (JDF_COMPILER_GLOBAL_ARGS.dep_management == DEP_MANAGEMENT_INDEX_ARRAY) && !need_to_iterate &&
+        !(f->user_defines & JDF_FUNCTION_HAS_UD_DEPENDENCIES_FUNS) ) {
+        /* The index arrays are allocated while enumerating the execution space; without the
+         * enumeration there is nothing to store in dependencies_array for this class. */
+        jdf_fatal(JDF_OBJECT_LINENO(f),
+                  "Task class %s: the index-array dependency management needs to enumerate the execution space, "
+                  "but the user-defined make_key and task count disable this enumeration.\n"
+                  "  Use --dep-management dynamic-hash-table, or define the dependencies functions of %s.\n",
+                  f->fname, f->fname);
+        exit(1);
+    }
+
     if( 0 != (f->user_defines & JDF_FUNCTION_HAS_UD_HASH_STRUCT) ) {
         dep_key_fn_name = strdup( jdf_property_get_string(f->properties, JDF_PROP_UD_HASH_STRUCT_NAME, NULL) );
     } else {
